@@ -197,10 +197,29 @@ func c14Run(c Case) (Result, error) {
 		}
 	}
 	var seedB, custB []byte
+	var sentinelBuf []byte
+	sentinelFrom := 0
 	if !in.NilArgs {
-		seedB, custB = unhx(in.Seed), unhx(in.Cust)
+		// the two arguments are views into ONE buffer, customizer || seed || sentinel, each with spare
+		// capacity reaching into what follows it: an append on either argument inside the library
+		// would overwrite its neighbour (message layouts like this are what decoders hand out)
+		cb, sb := unhx(in.Cust), unhx(in.Seed)
+		buf := make([]byte, len(cb)+len(sb)+16)
+		copy(buf, cb)
+		copy(buf[len(cb):], sb)
+		for i := len(cb) + len(sb); i < len(buf); i++ {
+			buf[i] = 0xA5
+		}
+		custB = buf[:len(cb)]
+		seedB = buf[len(cb) : len(cb)+len(sb)]
+		sentinelFrom, sentinelBuf = len(cb)+len(sb), buf
 	}
 	prg, err := random.NewChacha20PRG(seedB, custB)
+	for i := sentinelFrom; i < len(sentinelBuf); i++ {
+		if sentinelBuf[i] != 0xA5 {
+			fail("NewChacha20PRG wrote past the end of the caller's seed")
+		}
+	}
 	if hx(seedB) != in.Seed || hx(custB) != in.Cust {
 		fail("NewChacha20PRG modified the caller's seed or customizer buffer")
 	}
